@@ -21,22 +21,66 @@ open Refine Refine.Model Refine.Model.Guards Refine.GuardsRules
 
 /-! ## (a) `collapseGeometry_rule` -/
 
-/-- without CAD the function is a pure function of the ids collected around node1 -/
+/-- the triangle-id `switch (degree1)` of `ref_collapse_edge_geometry` -/
+def triRule (g : Grid) (n0 n1 : Nat) : Status × Bool :=
+  match (idListAround g.tri n1 3).2 with
+  | [_, _, _] => (.ok, false)
+  | [i0, i1] =>
+    match listWith2 g.tri n0 n1 MAX_CELL_COLLAPSE with
+    | (.ok, [c0, c1]) => (.ok, (c0.id == i0 && c1.id == i1) || (c1.id == i0 && c0.id == i1))
+    | (.ok, _) => (.ok, false)
+    | (st, _) => (st, false)
+  | [_] => (.ok, hasSide e2nTri g.tri n0 n1)
+  | [] => (.ok, true)
+  | _ => (.ok, false)
+
+/-- `degree1 > 1` after `ref_cell_id_list_around(ref_edg, node1, 2, ..)`: two different edg ids meet at node1
+    (fix 285dd96) -/
+def edgSeparator (g : Grid) (n1 : Nat) : Bool := (idListAround g.edg n1 2).2.length > 1
+
+/-- without CAD the function is a pure function of the edg ids and the tri ids collected around node1 -/
 theorem collapseGeometry_unfold (g : Grid) (n0 n1 : Nat) :
     collapseEdgeGeometry g false false n0 n1 =
-      match (idListAround g.tri n1 3).2 with
-      | [_, _, _] => (.ok, false)
-      | [i0, i1] =>
-        match listWith2 g.tri n0 n1 MAX_CELL_COLLAPSE with
-        | (.ok, [c0, c1]) => (.ok, (c0.id == i0 && c1.id == i1) || (c1.id == i0 && c0.id == i1))
-        | (.ok, _) => (.ok, false)
-        | (st, _) => (st, false)
-      | [_] => (.ok, hasSide e2nTri g.tri n0 n1)
-      | [] => (.ok, true)
-      | _ => (.ok, false) := by
-  unfold collapseEdgeGeometry
-  simp only [Bool.false_eq_true, if_false]
+      if edgSeparator g n1 then (.ok, false) else triRule g n0 n1 := by
+  unfold collapseEdgeGeometry edgSeparator triRule
+  simp only [Bool.false_eq_true, if_false, decide_eq_true_eq]
   rfl
+
+/-- allowed ⇒ node1 does not separate edg ids and the triangle rule allows -/
+theorem collapseGeometry_allowed (g : Grid) (n0 n1 : Nat)
+    (h : collapseEdgeGeometry g false false n0 n1 = (.ok, true)) :
+    edgSeparator g n1 = false ∧ triRule g n0 n1 = (.ok, true) := by
+  rw [collapseGeometry_unfold] at h
+  cases hs : edgSeparator g n1 <;> simp [hs] at h ⊢
+  exact h
+
+/-- the triangle rule refuses ⇒ refused -/
+theorem collapseGeometry_refused (g : Grid) (n0 n1 : Nat) (h : triRule g n0 n1 = (.ok, false)) :
+    collapseEdgeGeometry g false false n0 n1 = (.ok, false) := by
+  rw [collapseGeometry_unfold, h]; simp
+
+/-- **a vertex where two boundary-edge ids meet is never removed** (the 2-D analogue of the corner rule;
+    fix 285dd96).  If two `edg` cells around node1 carry different ids the collapse is refused for every
+    node0, whatever the triangles say. -/
+theorem edg_separator_preserved (g : Grid) (n0 n1 : Nat) (e1 e2 : Cell)
+    (h1 : e1 ∈ g.edg) (h2 : e2 ∈ g.edg) (m1 : n1 ∈ e1.nodes) (m2 : n1 ∈ e2.nodes) (d : e1.id ≠ e2.id) :
+    collapseEdgeGeometry g false false n0 n1 = (.ok, false) := by
+  rw [collapseGeometry_unfold]
+  have : edgSeparator g n1 = true := by
+    unfold edgSeparator
+    obtain ⟨hnd, _, hall, _⟩ := idListAround_spec g.edg n1 2
+    rcases hall with h | h
+    · have a1 := h e1 h1 m1
+      have a2 := h e2 h2 m2
+      generalize (idListAround g.edg n1 2).2 = r at a1 a2 hnd
+      match r, a1, a2, hnd with
+      | [], a1, _, _ => simp at a1
+      | [x], a1, a2, _ =>
+        rw [List.mem_singleton] at a1 a2
+        exact absurd (a1.trans a2.symm) d
+      | _ :: _ :: _, _, _, _ => simp
+    · simp only [gt_iff_lt, decide_eq_true_eq]; omega
+  simp [this]
 
 /-- **k ≥ 3: a corner is never removed.**  If three boundary triangles around node1 carry three pairwise
     different patch ids (this includes the case where `ref_cell_id_list_around` hits `REF_INCREASE_LIMIT`
@@ -46,7 +90,8 @@ theorem corner_preserved (g : Grid) (n0 n1 : Nat) (c1 c2 c3 : Cell)
     (m1 : n1 ∈ c1.nodes) (m2 : n1 ∈ c2.nodes) (m3 : n1 ∈ c3.nodes)
     (d12 : c1.id ≠ c2.id) (d13 : c1.id ≠ c3.id) (d23 : c2.id ≠ c3.id) :
     collapseEdgeGeometry g false false n0 n1 = (.ok, false) := by
-  rw [collapseGeometry_unfold]
+  apply collapseGeometry_refused
+  unfold triRule
   obtain ⟨_, _, hall, hlen⟩ := idListAround_spec g.tri n1 3
   have h3' : 3 ≤ (idListAround g.tri n1 3).2.length := by
     rcases hall with h | h
@@ -69,7 +114,8 @@ theorem ridge_rule (g : Grid) (n0 n1 : Nat) (a b : Cell)
     (h : collapseEdgeGeometry g false false n0 n1 = (.ok, true)) :
     ∃ c0 c1, having2 g.tri n0 n1 = [c0, c1] ∧ c0.id ≠ c1.id ∧
       ∀ c ∈ g.tri, n1 ∈ c.nodes → c.id = c0.id ∨ c.id = c1.id := by
-  rw [collapseGeometry_unfold] at h
+  replace h := (collapseGeometry_allowed g n0 n1 h).2
+  unfold triRule at h
   obtain ⟨hnd, _, hall, _⟩ := idListAround_spec g.tri n1 3
   generalize (idListAround g.tri n1 3).2 = r at h hnd hall
   match r, h, hnd, hall with
@@ -118,9 +164,11 @@ theorem ridge_rule (g : Grid) (n0 n1 : Nat) (a b : Cell)
 /-- **k = 1: a patch-interior vertex stays in its patch.**  If all boundary triangles around node1 carry the
     same id (and there is one), the answer is exactly `ref_cell_has_side(tri, node0, node1)`. -/
 theorem patch_rule (g : Grid) (n0 n1 : Nat) (a : Cell) (ha : a ∈ g.tri) (ma : n1 ∈ a.nodes)
-    (hsame : ∀ c ∈ g.tri, n1 ∈ c.nodes → c.id = a.id) :
+    (hsame : ∀ c ∈ g.tri, n1 ∈ c.nodes → c.id = a.id) (hedg : edgSeparator g n1 = false) :
     collapseEdgeGeometry g false false n0 n1 = (.ok, hasSide e2nTri g.tri n0 n1) := by
-  rw [collapseGeometry_unfold]
+  rw [collapseGeometry_unfold, hedg]
+  simp only [Bool.false_eq_true, if_false]
+  unfold triRule
   obtain ⟨hnd, hsub, hall, _⟩ := idListAround_spec g.tri n1 3
   generalize (idListAround g.tri n1 3).2 = r at hnd hsub hall
   have hid : ∀ x ∈ r, x = a.id := by
@@ -141,16 +189,19 @@ theorem patch_rule (g : Grid) (n0 n1 : Nat) (a : Cell) (ha : a ∈ g.tri) (ma : 
 
 /-- … and for well-formed triangles that is: some boundary triangle contains both ends of the edge -/
 theorem patch_rule' (g : Grid) (n0 n1 : Nat) (a : Cell) (ha : a ∈ g.tri) (ma : n1 ∈ a.nodes)
-    (hsame : ∀ c ∈ g.tri, n1 ∈ c.nodes → c.id = a.id)
+    (hsame : ∀ c ∈ g.tri, n1 ∈ c.nodes → c.id = a.id) (hedg : edgSeparator g n1 = false)
     (hw : ∀ c ∈ g.tri, c.nodes.length = 3) (hne : n0 ≠ n1) :
     collapseEdgeGeometry g false false n0 n1 = (.ok, true) ↔ ∃ c ∈ g.tri, n0 ∈ c.nodes ∧ n1 ∈ c.nodes := by
-  rw [patch_rule g n0 n1 a ha ma hsame, ← hasSide_tri_iff hw hne]
+  rw [patch_rule g n0 n1 a ha ma hsame hedg, ← hasSide_tri_iff hw hne]
   simp
 
 /-- **k = 0: a vertex that is on no boundary triangle is free** (as far as this guard goes) -/
-theorem interior_free (g : Grid) (n0 n1 : Nat) (h : ∀ c ∈ g.tri, n1 ∉ c.nodes) :
+theorem interior_free (g : Grid) (n0 n1 : Nat) (h : ∀ c ∈ g.tri, n1 ∉ c.nodes)
+    (hedg : edgSeparator g n1 = false) :
     collapseEdgeGeometry g false false n0 n1 = (.ok, true) := by
-  rw [collapseGeometry_unfold]
+  rw [collapseGeometry_unfold, hedg]
+  simp only [Bool.false_eq_true, if_false]
+  unfold triRule
   obtain ⟨_, hsub, _, _⟩ := idListAround_spec g.tri n1 3
   generalize (idListAround g.tri n1 3).2 = r at hsub
   match r, hsub with
@@ -171,7 +222,9 @@ theorem cad_rule (g : Grid) (ge : Bool) (n0 n1 : Nat) :
     * two different ids in `A` and allowed ⇒ the triangles containing the edge are exactly two, with the
       two different ids, which are all the ids of `A`;
     * one id in `A` ⇒ allowed iff the edge is a side of a boundary triangle;
-    * `A` empty ⇒ allowed. -/
+    * `A` empty ⇒ allowed;
+    the last two when node1 does not separate two `edg` ids; if it does (two `edg` cells with different ids
+    around node1) ⇒ refused. -/
 theorem collapseGeometry_rule (g : Grid) (n0 n1 : Nat) :
     ((∃ c1 ∈ g.tri, ∃ c2 ∈ g.tri, ∃ c3 ∈ g.tri, n1 ∈ c1.nodes ∧ n1 ∈ c2.nodes ∧ n1 ∈ c3.nodes ∧
         c1.id ≠ c2.id ∧ c1.id ≠ c3.id ∧ c2.id ≠ c3.id) →
@@ -180,16 +233,21 @@ theorem collapseGeometry_rule (g : Grid) (n0 n1 : Nat) :
       collapseEdgeGeometry g false false n0 n1 = (.ok, true) →
       ∃ c0 c1, having2 g.tri n0 n1 = [c0, c1] ∧ c0.id ≠ c1.id ∧
         ∀ c ∈ g.tri, n1 ∈ c.nodes → c.id = c0.id ∨ c.id = c1.id) ∧
-    (∀ a ∈ g.tri, n1 ∈ a.nodes → (∀ c ∈ g.tri, n1 ∈ c.nodes → c.id = a.id) →
+    (∀ a ∈ g.tri, n1 ∈ a.nodes → (∀ c ∈ g.tri, n1 ∈ c.nodes → c.id = a.id) → edgSeparator g n1 = false →
       collapseEdgeGeometry g false false n0 n1 = (.ok, hasSide e2nTri g.tri n0 n1)) ∧
-    ((∀ c ∈ g.tri, n1 ∉ c.nodes) → collapseEdgeGeometry g false false n0 n1 = (.ok, true)) := by
-  refine ⟨?_, ?_, ?_, interior_free g n0 n1⟩
+    ((∀ c ∈ g.tri, n1 ∉ c.nodes) → edgSeparator g n1 = false →
+      collapseEdgeGeometry g false false n0 n1 = (.ok, true)) ∧
+    ((∃ e1 ∈ g.edg, ∃ e2 ∈ g.edg, n1 ∈ e1.nodes ∧ n1 ∈ e2.nodes ∧ e1.id ≠ e2.id) →
+      collapseEdgeGeometry g false false n0 n1 = (.ok, false)) := by
+  refine ⟨?_, ?_, ?_, interior_free g n0 n1, ?_⟩
   · rintro ⟨c1, h1, c2, h2, c3, h3, m1, m2, m3, d12, d13, d23⟩
     exact corner_preserved g n0 n1 c1 c2 c3 h1 h2 h3 m1 m2 m3 d12 d13 d23
   · rintro ⟨a, ha, b, hb, ma, mb, hab⟩ h
     exact ridge_rule g n0 n1 a b ha hb ma mb hab h
-  · intro a ha ma hsame
-    exact patch_rule g n0 n1 a ha ma hsame
+  · intro a ha ma hsame hedg
+    exact patch_rule g n0 n1 a ha ma hsame hedg
+  · rintro ⟨e1, h1, e2, h2, m1, m2, d⟩
+    exact edg_separator_preserved g n0 n1 e1 e2 h1 h2 m1 m2 d
 
 /-- non-vacuity: a fan of four triangles around node 0 with ids 5,5,7,7 (ridge through nodes 1–0–3):
     collapsing 0 onto 1 or 3 (along the ridge) is allowed, onto 2 or 4 (into a patch) is refused; with a
@@ -206,6 +264,17 @@ example : collapseEdgeGeometry (fan 5 6 7 8) false false 1 0 = (.ok, false) := b
 example : collapseEdgeGeometry (fan 5 5 5 5) false false 2 0 = (.ok, true) := by decide
 example : collapseEdgeGeometry (fan 5 5 5 5) false false 9 0 = (.ok, false) := by decide
 example : collapseEdgeGeometry (fan 5 5 7 7) false false 0 9 = (.ok, true) := by decide
+/-- non-vacuity of `edg_separator_preserved`: a 2-D boundary vertex 0 on a straight side, one triangle id,
+    edg ids 1 and 5 meeting at 0: refused in both directions along the side; with equal edg ids the collapse
+    along the side is allowed (patch rule), into the interior node 2 as well (it is a triangle side) -/
+def side2d (ia ib : Int) : Grid :=
+  { tri := [⟨[0, 1, 2], 9⟩, ⟨[0, 2, 3], 9⟩], edg := [⟨[3, 0], ia⟩, ⟨[0, 1], ib⟩] }
+
+example : collapseEdgeGeometry (side2d 1 5) false false 1 0 = (.ok, false) := by decide
+example : collapseEdgeGeometry (side2d 1 5) false false 3 0 = (.ok, false) := by decide
+example : collapseEdgeGeometry (side2d 1 1) false false 1 0 = (.ok, true) := by decide
+example : edgSeparator (side2d 1 1) 0 = false := by decide
+example : edgSeparator (side2d 1 5) 0 = true := by decide
 /-- the hypotheses of `ridge_rule` are met by the fan -/
 example : ∃ c0 c1, having2 (fan 5 5 7 7).tri 1 0 = [c0, c1] ∧ c0.id ≠ c1.id ∧
     ∀ c ∈ (fan 5 5 7 7).tri, 0 ∈ c.nodes → c.id = c0.id ∨ c.id = c1.id :=
@@ -220,7 +289,7 @@ theorem allowed_collapse_ids_subset (g : Grid) (n0 n1 : Nat) (hw : ∀ c ∈ g.t
   intro c hc hn
   by_cases hall : ∀ d ∈ g.tri, n1 ∈ d.nodes → d.id = c.id
   · -- one id
-    have hp := patch_rule g n0 n1 c hc hn hall
+    have hp := patch_rule g n0 n1 c hc hn hall (collapseGeometry_allowed g n0 n1 h).1
     rw [hp] at h
     simp only [Prod.mk.injEq, true_and] at h
     obtain ⟨c', hc', hn0, p, _, hs⟩ := hasSide_true h
@@ -333,6 +402,58 @@ theorem swap_same_faceid_rule (g : Grid) (n0 n1 : Nat) (h : swapSameFaceid g n0 
 example : swapSameFaceid (fan 5 5 7 7) 0 2 = (.ok, true) := by decide
 example : swapSameFaceid (fan 5 5 7 7) 0 1 = (.ok, false) := by decide
 example : swapSameFaceid { (fan 5 5 5 5) with edg := [⟨[0, 2], 1⟩] } 0 2 = (.ok, false) := by decide
+
+section SmoothSep
+open Refine.Model.Geom Refine.ScalarReal Refine.GeomReal Refine.GuardsReal
+
+/-- **the no-geometry edge smoother never moves a vertex that separates two boundary-edge ids** (fix 36d5222):
+    if two `edg` cells around the node carry different ids, `ref_smooth_no_geom_edge_improve` returns before it
+    touches the coordinates (frozen), whatever the tangents are.  (`qua`/`pyr`/`pri`/`hex`/CAD exits come
+    first and freeze as well.) -/
+theorem smoothEdge_separator_frozen (g : Grid) (ge : Bool) (xyz : List (V3 ℝ)) (node : Nat) (e1 e2 : Cell)
+    (h1 : e1 ∈ g.edg) (h2 : e2 ∈ g.edg) (m1 : node ∈ e1.nodes) (m2 : node ∈ e2.nodes) (d : e1.id ≠ e2.id) :
+    smoothEdgeFrozen g ge xyz node = (.ok, true) := by
+  have hs : (idListAround g.edg node 2).2.length > 1 := by
+    obtain ⟨hnd, _, hall, _⟩ := idListAround_spec g.edg node 2
+    rcases hall with h | h
+    · have a1 := h e1 h1 m1
+      have a2 := h e2 h2 m2
+      generalize (idListAround g.edg node 2).2 = r at a1 a2 hnd
+      match r, a1, a2, hnd with
+      | [], a1, _, _ => simp at a1
+      | [x], a1, a2, _ =>
+        rw [List.mem_singleton] at a1 a2
+        exact absurd (a1.trans a2.symm) d
+      | _ :: _ :: _, _, _, _ => simp
+    · omega
+  unfold smoothEdgeFrozen
+  repeat' split
+  all_goals first | rfl | (exfalso; omega) | skip
+  all_goals simp_all
+
+/-- the triangle smoother: two patch ids around the node ⇒ frozen (the rule the edge smoother now mirrors) -/
+theorem smoothTri_separator_frozen (g : Grid) (gf : Bool) (xyz : List (V3 ℝ)) (node : Nat) (c1 c2 : Cell)
+    (h1 : c1 ∈ g.tri) (h2 : c2 ∈ g.tri) (m1 : node ∈ c1.nodes) (m2 : node ∈ c2.nodes) (d : c1.id ≠ c2.id) :
+    smoothTriFrozen g gf xyz node = (.ok, true) := by
+  have hs : (idListAround g.tri node 2).2.length > 1 := by
+    obtain ⟨hnd, _, hall, _⟩ := idListAround_spec g.tri node 2
+    rcases hall with h | h
+    · have a1 := h c1 h1 m1
+      have a2 := h c2 h2 m2
+      generalize (idListAround g.tri node 2).2 = r at a1 a2 hnd
+      match r, a1, a2, hnd with
+      | [], a1, _, _ => simp at a1
+      | [x], a1, a2, _ =>
+        rw [List.mem_singleton] at a1 a2
+        exact absurd (a1.trans a2.symm) d
+      | _ :: _ :: _, _, _, _ => simp
+    · omega
+  unfold smoothTriFrozen
+  repeat' split
+  all_goals first | rfl | (exfalso; omega) | skip
+  all_goals simp_all
+
+end SmoothSep
 
 /-! ## (b) `mixed_frame` -/
 
